@@ -240,6 +240,8 @@ def check(prog, rep):
         r6.add(f"opttype|{ot}", ot in scls, f"HYDROGENS.xml opttype {ot}: {'class found' if ot in scls else 'NO class in hydrogens/structures.py'}",
                "pdb2pqr/dat/HYDROGENS.xml")
 
+    from . import shared
+    shared.rule_patch_isolation(prog, rep, "R8")
     # ------------------------------------------------------------------ R7
     r7 = rep.rule("R7", "no template or patch defines two atoms of one name", floor=50)
     for name, ref in list(t.aa.items()) + list(t.na.items()):
